@@ -8,14 +8,14 @@ LEVEL = "model_checking"
 TECHNIQUE = "explicit-state BFS over operation histories on real Deferreds + lock-step reference state machine"
 RULE = ("BFS over histories of {callback(fresh), errback(fresh), cancel, add a callback returning a fresh unfired "
         "inner Deferred, add a plain observing callback} applied to the outer Deferred and to every inner Deferred "
-        "created so far (<=3 Deferreds, so 'fire/cancel the inner' and two-level waiting are included), for every "
+        "created so far (<=3 Deferreds quick / 4 thorough, so 'fire/cancel the inner' and two-level waiting are included), for every "
         "(outer canceller, inner canceller) in {none, fires callback, fires errback, does nothing, raises}^2.  "
         "Every transition runs on the real objects and is compared with a reference state machine: exception "
         "raised by the call (AlreadyCalledError or none), canceller call counts, observer invocations with "
         "their inputs, and each Deferred's result.  non-trivial = distinct canonical states after a cancel, a "
         "late (second) result, or while a Deferred was waiting on another")
 BOUNDS = {"quick": "25 canceller configurations, <=3 Deferreds, <=2 pending callbacks per Deferred, depth 8",
-          "thorough": "25 canceller configurations, <=3 Deferreds, <=2 pending callbacks per Deferred, depth 10"}
+          "thorough": "25 canceller configurations, <=4 Deferreds, <=2 pending callbacks per Deferred, depth 10"}
 ASSUMPTIONS = [
     "raising canceller: the statement is silent; demanded only that cancel() called the canceller exactly once "
     "and that no second result is accepted afterwards; if the Deferred is left in any state other than "
@@ -33,8 +33,7 @@ LEVEL_TEXT = ("every history within the bound is executed on real Deferreds and 
 LEVEL_NOTE = "raising cancellers only partly specified; no pauses; cancellers fire synchronously or not at all"
 
 KINDS = ["none", "cb", "eb", "noop", "raise"]
-MAXD = 3
-MAXPENDING = 2
+TIER = {"quick": dict(depth=8, maxd=3, maxpending=2), "thorough": dict(depth=10, maxd=4, maxpending=2)}
 NO = object()
 
 
@@ -73,9 +72,10 @@ def _quiet():
 
 
 class St:
-    def __init__(self, k0, k1):
+    def __init__(self, k0, k1, tier="quick"):
         _quiet()
         self.k0, self.k1 = k0, k1
+        self.maxd, self.maxpending = TIER[tier]["maxd"], TIER[tier]["maxpending"]
         self.d = []
         self.m = []
         self.ids = {}
@@ -310,9 +310,9 @@ def enabled(st):
         evs.append(("cancel", i))
         np_ = sum(1 for e in st.m[i].pending if e[0] != "cont")
         runs_now = st.m[i].fired and st.m[i].wait is None
-        if runs_now or np_ < MAXPENDING:
+        if runs_now or np_ < st.maxpending:
             evs.append(("obs", i))
-            if len(st.d) < MAXD:
+            if len(st.d) < st.maxd:
                 evs.append(("inner", i))
     return evs
 
@@ -423,9 +423,9 @@ def shards(tier, seed):
 
 def run_shard(shard, tier, seed):
     k0, k1 = shard
-    depth = 8 if tier == "quick" else 10
+    depth = TIER[tier]["depth"]
     stats = Stats()
-    extra = {"config": [k0, k1]}
+    extra = {"config": [k0, k1], "tier": tier}
 
     def inv(st, hist):
         for f in st.flags:
@@ -440,7 +440,7 @@ def run_shard(shard, tier, seed):
         if nt:
             stats.nt((k0, k1, canon(st)))
 
-    res = bfs(lambda: St(k0, k1), apply, enabled, canon, inv, depth, on_state=on_state)
+    res = bfs(lambda: St(k0, k1, tier), apply, enabled, canon, inv, depth, on_state=on_state)
     res.violations = []
     stats.add_bfs(res, extra)
     stats.samples = [{"config": [k0, k1], "history": h} for h in res.samples[:1]]
@@ -449,7 +449,7 @@ def run_shard(shard, tier, seed):
 
 def replay(w):
     k0, k1 = w["config"]
-    st = St(k0, k1)
+    st = St(k0, k1, w.get("tier", "quick"))
     for ev in w["history"]:
         apply(st, tuple(ev))
         bad = invariant(st, None)
